@@ -69,6 +69,10 @@ def cases(tier):
         for ti, tgt in enumerate(TARGETS):
             for route in ('cls', 'cfg', 'potable') + (('proc',) if tgt != 'excel_eam_fs' else ()):
                 out.append(dict(m=m, route=route, target=tgt))
+    for i, m in enumerate(EK.label_models(True, tier)):
+        for ti, tgt in enumerate(('setfl_fs', 'DL_POLY_EAM_fs')):
+            for route in (('cls', 'proc', 'cfg', 'potable') if tier != 'quick' else (('cls', 'proc')[(i + ti) % 2], ('cfg', 'potable')[(i // 2) % 2])):
+                out.append(dict(m=m, route=route, target=tgt))
     for els in (['Al'], ['Cu', 'Al'], ['Fe', 'Al', 'Cu']):
         for extra in (['Ni'], ['Ni', 'Ag']):
             allp = ['%s->%s' % (a, b) for a in els for b in els]
